@@ -1,6 +1,7 @@
 CONSTANTS
   Ext <- NoExtensions
   Conv = "empty"
+  Syntax <- SyntaxAsExt
   Defects = TRUE
   Mode = "bfs"
   Kernel = "defect"
